@@ -74,7 +74,11 @@ func ruleChartCodec(c *core.Ctx) {
 	info := marsh[0].Pkg.TypesInfo
 	// 1. keys
 	written := map[string]bool{}
+	var marshScope []*astx.DeclInfo
 	for _, d := range marsh {
+		marshScope = append(marshScope, fnScope(c, d, 1)...)
+	}
+	for _, d := range marshScope {
 		ast.Inspect(d.Decl.Body, func(n ast.Node) bool {
 			as, ok := n.(*ast.AssignStmt)
 			if !ok {
@@ -91,20 +95,31 @@ func ruleChartCodec(c *core.Ctx) {
 		})
 	}
 	read := map[string]bool{}
-	ast.Inspect(unm[0].Decl.Body, func(n ast.Node) bool {
-		switch x := n.(type) {
-		case *ast.BinaryExpr:
-			if x.Op == token.EQL {
-				if k := constKeyName(info, x.Y); k != "" {
+	inScope(fnScope(c, unm[0], 1), func(ud *astx.DeclInfo) {
+		ast.Inspect(ud.Decl.Body, func(n ast.Node) bool {
+			switch x := n.(type) {
+			case *ast.BinaryExpr:
+				if x.Op == token.EQL {
+					if k := constKeyName(info, x.Y); k != "" {
+						read[k] = true
+					}
+					if k := constKeyName(info, x.X); k != "" {
+						read[k] = true
+					}
+				}
+			case *ast.CaseClause:
+				for _, e := range x.List {
+					if k := constKeyName(info, e); k != "" {
+						read[k] = true
+					}
+				}
+			case *ast.IndexExpr:
+				if k := constKeyName(info, x.Index); k != "" {
 					read[k] = true
 				}
 			}
-		case *ast.IndexExpr:
-			if k := constKeyName(info, x.Index); k != "" {
-				read[k] = true
-			}
-		}
-		return true
+			return true
+		})
 	})
 	all := map[string]bool{}
 	for k := range written {
@@ -211,41 +226,109 @@ func ruleChartCodec(c *core.Ctx) {
 	}
 	// 3. `$`+label round trip, through the variable segment's own marshaler
 	mo := marsh[0]
-	okDollar, okOwn := false, false
+	// each part: +1 as required, -1 positively wrong, 0 not in a shape the rule reads
+	dollar, own, label := 0, 0, 0
+	set := func(v *int, ok bool) {
+		if !ok {
+			*v = -1
+		} else if *v == 0 {
+			*v = 1
+		}
+	}
+	isLabel := func(e ast.Expr) bool { return strings.HasSuffix(astx.SelectorPath(e), ".VariableSegment.Label") }
 	ast.Inspect(mo.Decl.Body, func(n ast.Node) bool {
 		is, ok := n.(*ast.IfStmt)
-		if !ok || types.ExprString(is.Cond) != "s.VariableSegment != nil" {
-			return true
-		}
-		for _, call := range callsTo(info, is.Body, named("Sprintf")) {
-			if f, args, ok := sprintfShape(info, call); ok && strings.HasPrefix(f, "$%") && len(args) == 1 && strings.HasSuffix(args[0], ".VariableSegment.Label") {
-				okDollar = true
-			}
-		}
-		for _, call := range callsTo(info, is.Body, named("MarshalJSON")) {
-			if types.ExprString(recvExpr(call)) == "s.VariableSegment" {
-				okOwn = true
-			}
-		}
-		return true
-	})
-	okLabel := false
-	ast.Inspect(unm[0].Decl.Body, func(n ast.Node) bool {
-		cl, ok := n.(*ast.CompositeLit)
 		if !ok {
 			return true
 		}
-		if v := fieldOfCompositeLit(cl, "Label"); v != nil {
-			if se, ok := v.(*ast.SliceExpr); ok && se.Low != nil && types.ExprString(se.Low) == "1" && se.High == nil {
-				fs := factStrings(info, unm[0].Decl.Body, cl.Pos())
-				if hasFact(fs, `strings.HasPrefix(`+types.ExprString(se.X)+`, "$")`, true) {
-					okLabel = true
+		if be, isBin := ast.Unparen(is.Cond).(*ast.BinaryExpr); !isBin || be.Op != token.NEQ || canonPath(mo, be.X) != "recv.VariableSegment" || !astx.IsNilExpr(info, be.Y) {
+			return true
+		}
+		ast.Inspect(is.Body, func(y ast.Node) bool {
+			switch v := y.(type) {
+			case *ast.BinaryExpr:
+				// "$" + label
+				if v.Op == token.ADD && isLabel(v.Y) {
+					pre, isConst := constStr(info, v.X)
+					set(&dollar, isConst && pre == "$")
+				}
+			case *ast.CallExpr:
+				if f, args, ok := sprintfShape(info, v); ok && len(args) == 1 && strings.HasSuffix(args[0], ".VariableSegment.Label") {
+					set(&dollar, strings.HasPrefix(f, "$%") && strings.Count(f, "%") == 1)
+				}
+				cf := astx.Callee(info, v)
+				if cf == nil {
+					return true
+				}
+				if cf.Name() == "MarshalJSON" {
+					if p := canonPath(mo, recvExpr(v)); p == "recv.VariableSegment" {
+						set(&own, true)
+					} else if strings.HasPrefix(p, "recv.VariableSegment.") {
+						set(&own, false)
+					}
+					return true
+				}
+				// handed to a helper that marshals what it is given
+				if hd := index(c).Decls[cf]; hd != nil && hd.Decl.Body != nil && hd.Obj.Pkg() == mo.Obj.Pkg() {
+					if len(callsTo(hd.Pkg.TypesInfo, hd.Decl.Body, named("MarshalJSON"))) > 0 {
+						for _, a := range v.Args {
+							if p := canonPath(mo, a); p == "recv.VariableSegment" {
+								set(&own, true)
+							} else if strings.HasPrefix(p, "recv.VariableSegment.") && !strings.HasSuffix(p, ".Label") {
+								set(&own, false)
+							}
+						}
+					}
+				}
+			}
+			return true
+		})
+		return true
+	})
+	ast.Inspect(unm[0].Decl.Body, func(n ast.Node) bool {
+		cl, ok := n.(*ast.CompositeLit)
+		if !ok || astx.RecvTypeName(info.TypeOf(cl)) != "ChartVariableSegment" {
+			return true
+		}
+		v := fieldOfCompositeLit(cl, "Label")
+		if v == nil {
+			return true
+		}
+		se, isSlice := ast.Unparen(v).(*ast.SliceExpr)
+		if !isSlice {
+			set(&label, false) // the key is stored with its `$`
+			return true
+		}
+		lowOK := false
+		if se.Low != nil && se.High == nil {
+			if tv, ok := info.Types[se.Low]; ok && tv.Value != nil && tv.Value.ExactString() == "1" {
+				lowOK = true
+			}
+		}
+		prefixed := false
+		for _, ft := range xfactsAt(info, unm[0].Decl.Body, cl.Pos()) {
+			call, isCall := ft.Cond.(*ast.CallExpr)
+			if !isCall || !ft.Positive || len(call.Args) != 2 {
+				continue
+			}
+			if cf := astx.Callee(info, call); cf != nil && cf.Name() == "HasPrefix" && types.ExprString(call.Args[0]) == types.ExprString(se.X) {
+				if pre, isConst := constStr(info, call.Args[1]); isConst && pre == "$" {
+					prefixed = true
 				}
 			}
 		}
+		set(&label, lowOK && prefixed)
 		return true
 	})
-	c.Check(okDollar && okOwn && okLabel, "KEYS/chart", "variable-segment-key", pos(c, mo.Decl), "`$`+label written by the variable segment's own marshaler; label = key[1:] when the key starts with `$`", "a variable segment is not written as `$`+label through ChartVariableSegment.MarshalJSON (which carries the pattern) and read back as the key without its `$`")
+	vsMsg := "a variable segment is not written as `$`+label through ChartVariableSegment.MarshalJSON (which carries the pattern) and read back as the key without its `$`"
+	switch {
+	case dollar < 0 || own < 0 || label < 0:
+		c.Fail("KEYS/chart", "variable-segment-key", pos(c, mo.Decl), fmt.Sprintf("%s (key=`$`+label:%d own-marshaler:%d label=key[1:]:%d)", vsMsg, dollar, own, label))
+	case dollar > 0 && own > 0 && label > 0:
+		c.Pass("KEYS/chart", "variable-segment-key", pos(c, mo.Decl), "`$`+label written by the variable segment's own marshaler; label = key[1:] when the key starts with `$`")
+	default:
+		c.Unrecognised("KEYS/chart", "variable-segment-key", pos(c, mo.Decl), fmt.Sprintf("variable segment codec not in a shape the rule reads (key=`$`+label:%d own-marshaler:%d label=key[1:]:%d)", dollar, own, label))
+	}
 	// 4. .self discipline
 	okSelfW := false
 	ast.Inspect(mo.Decl.Body, func(n ast.Node) bool {
